@@ -74,6 +74,8 @@ pub const ALL_HINTS: &[Hint] = &[
     Hint::UnitStruct,
     Hint::Newtype,
     Hint::Seq,
+    Hint::Tuple(0),
+    Hint::TupleStruct(0),
     Hint::Tuple(1),
     Hint::Tuple(2),
     Hint::Tuple(3),
@@ -119,6 +121,9 @@ impl Script {
     /// does any visitor of the script stop reading a map / an open-ended sequence before its end?
     pub fn has_early_stop(&self) -> bool {
         (self.stop_after > 0 && !matches!(self.hint(), Hint::Tuple(_) | Hint::TupleStruct(_))) || self.named.iter().any(|(_, s)| s.has_early_stop()) || self.other.iter().any(|s| s.has_early_stop())
+    }
+    pub fn has_zero_length_tuple(&self) -> bool {
+        matches!(self.hint(), Hint::Tuple(0) | Hint::TupleStruct(0)) || self.named.iter().any(|(_, s)| s.has_zero_length_tuple()) || self.other.iter().any(|s| s.has_zero_length_tuple())
     }
     pub fn depth(&self) -> usize {
         1 + self.named.iter().map(|(_, s)| s.depth()).chain(self.other.iter().map(|s| s.depth())).max().unwrap_or(0)
@@ -533,6 +538,12 @@ fn script_for(n: &Node, ch: &mut Choices, depth: usize) -> Script {
     let hint = if textish { *ch.pick(TEXT_HINTS) } else { *ch.pick(ELEM_HINTS) };
     let mut s = Script { hint: Some(hint), ..Default::default() };
     let flags = ch.next();
+    // zero-length tuples (`struct T();`, `[T; 0]`) are rare on purpose: they are the subject of
+    // known finding F14 and a script that contains one cannot witness another non-termination
+    if flags == 0xE3 || flags == 0xE7 {
+        s.hint = Some(if flags == 0xE3 { Hint::Tuple(0) } else { Hint::TupleStruct(0) });
+    }
+    let hint = s.hint();
     s.key_hint = flags & 3;
     s.stop_after = if flags & 0x1c == 0x1c && std::env::var_os("QXV_NO_EARLY_STOP").is_none() { 1 + ((flags >> 5) & 3) } else { 0 };
     if depth > 12 {
